@@ -12,6 +12,7 @@ Expressions
 Statements
   ("assign", name, expr, type|None, flags-tuple)      flags in {"const", "modify", "export"}
   ("opassign", target_expr, op, expr)                  target: var | index | field
+  ("unpack", [names], expr)
   ("setindex", obj_expr, idx_expr, expr) ("setfield", obj_expr, name, expr)
   ("print", expr) ("if", cond, [then], else)           else: None | [stmts] | ("if", ...)
   ("while", cond, [body]) ("from", lo, hi, inclusive, step|None, name|None, [body])
@@ -129,6 +130,8 @@ def pstmt(s, ind=0):
         fl = "".join(f + " " for f in flags)
         tt = f": {ty}" if ty else ""
         return f"{p}{fl}{name}{tt} = {pe(expr)}\n"
+    if t == "unpack":
+        return f"{p}[{', '.join(s[1])}] = {pe(s[2])}\n"
     if t == "opassign":
         return f"{p}{pe(s[1])} {s[2]} {pe(s[3])}\n"
     if t == "setindex":
@@ -354,6 +357,9 @@ def free_vars_of_fn(params, body):
         if t == "assign":
             names.add(s[1])
             ex(s[2])
+        elif t == "unpack":
+            names.update(s[1])
+            ex(s[2])
         elif t == "opassign":
             ex(s[1])
             ex(s[3])
@@ -496,6 +502,10 @@ class Interp:
         if t == "assign":
             v = self.ev(s[2])
             self.assign(s[1], v, s[4])
+        elif t == "unpack":
+            v = self.ev(s[2])
+            for n_, x_ in zip(s[1], v.items):
+                self.assign(n_, x_)
         elif t == "print":
             self.out.append(show(self.ev(s[1])))
         elif t == "if":
